@@ -678,6 +678,24 @@ def _run_sym(ctx, g, ks, sc, sm, seen):
 _SYM_QUEUE: list = []
 
 
+def _float_tie(ctx, op, want) -> bool:
+    """does the kernel give `want` when one of its real inputs moves by one unit in the last place?"""
+    pt = op['pts'][0]
+    pts = []
+    for i, u in enumerate(pt['x']):
+        x = u2f(u)
+        for y in (np.nextafter(x, np.inf), np.nextafter(x, -np.inf)):
+            q = dict(pt)
+            q['x'] = list(pt['x'])
+            q['x'][i] = f2u(float(y))
+            pts.append(q)
+    if not pts:
+        return False
+    got = ctx.driver.outs([dict(op, pts=pts)])[0]
+    vals = [u2f(t[0]) if isinstance(t, list) else u2f(t) for t in got]
+    return any(close(want, v, RTOL, 1e-300) for v in vals)
+
+
 def _flush_sym(ctx, sm, seen):
     if not _SYM_QUEUE:
         return
@@ -687,7 +705,14 @@ def _flush_sym(ctx, sm, seen):
         seen.add(k.name)
         sm['points'] += 1
         ctx.evaluations += 1
-        if not close(want, have, RTOL, 1e-300):
+        if not close(want, have, RTOL, 1e-300) and k.cut and xs and _float_tie(ctx, _op, want):
+            # a kernel cut out of the middle of a function receives intermediate values the implementation computed with numpy's
+            # transcendental functions and recomputes others with libm's: at a discontinuity (a branch on `log10(x) >= c` with
+            # `x` exactly on the boundary) the two may differ in the last bit and select different branches. A mismatch that
+            # disappears when ONE real input moves by one unit in the last place is such a tie, not a divergence.
+            sm['float_ties'] = sm.get('float_ties', 0) + 1
+            ctx.count('kernel_float_tie:' + k.name)
+        elif not close(want, have, RTOL, 1e-300):
             sm['mismatches'] += 1
             if sm['mismatches'] <= 5:
                 ctx.diverge(f'kernel {k.name} (symbolic translation of {k.file}:{k.func}, {k.target}) vs implementation',
